@@ -1760,11 +1760,8 @@ func ReadTerm(vm *VM, streamOrAlias, out, options Term, k Cont, env *Env) *Promi
 	}
 
 	p := NewParser(vm, s)
-	defer func() {
-		_ = s.UnreadRune()
-	}()
-
 	t, err := p.Term()
+	_ = s.UnreadRune() // The parser has read one rune ahead. Give it back before anything else reads from s.
 	switch err {
 	case nil:
 		break
@@ -1919,9 +1916,9 @@ func PeekByte(vm *VM, streamOrAlias, inByte Term, k Cont, env *Env) *Promise {
 	}
 
 	b, err := s.ReadByte()
-	defer func() {
-		_ = s.UnreadByte()
-	}()
+	if err == nil {
+		_ = s.UnreadByte() // Before the continuation reads from s.
+	}
 	switch err {
 	case nil:
 		return Unify(vm, inByte, Integer(b), k, env)
@@ -1957,9 +1954,9 @@ func PeekChar(vm *VM, streamOrAlias, char Term, k Cont, env *Env) *Promise {
 	}
 
 	r, _, err := s.ReadRune()
-	defer func() {
-		_ = s.UnreadRune()
-	}()
+	if err == nil {
+		_ = s.UnreadRune() // Before the continuation reads from s.
+	}
 	switch err {
 	case nil:
 		if r == unicode.ReplacementChar {
